@@ -27,6 +27,7 @@ ErrnoOf(k) == CASE k = "timeout" -> 0 [] k = "transmission" -> -1 [] k = "protoc
 \* attempts (clf.exchange calls) the code spends on one command
 Budget(proto, cc, nRetry) ==
     CASE proto = "T2" /\ cc = "ssel2" -> 1          \* tt2.py:557 retries=0, a time-out IS the answer (passive ack)
+      [] proto = "T4" /\ cc = "P" -> 1              \* tt4.py:82-86, 357-362 presence check: one R(NAK), no retry
       [] proto = "T4" -> nRetry + 1                 \* tt4.py: i <= n_retry
       [] OTHER -> 3
 
@@ -35,7 +36,7 @@ Scripts(N, bursts) == {[p |-> p, k |-> k, b |-> b, m |-> m] : p \in 1..N, k \in 
 
 \* parameters of one run: [proto, nRetry, clean (Seq of hashes), cleanRet ([kind, errno, val]), doc (set of values)]
 StInit == [pos |-> 0, att |-> 0, cur |-> 0, cc |-> "-", ph |-> "idle", gave |-> 0, lastGive |-> "-", justGave |-> FALSE,
-           ex |-> 0, fAfter |-> 0, dirty |-> FALSE, viol |-> {}, ret |-> [kind |-> "-", errno |-> 0, val |-> "-"]]
+           ex |-> 0, fAfter |-> 0, dirty |-> FALSE, amb |-> FALSE, viol |-> {}, ret |-> [kind |-> "-", errno |-> 0, val |-> "-"]]
 
 V(s, name) == [s EXCEPT !.viol = @ \cup {name}]
 VIf(s, cond, name) == IF cond THEN V(s, name) ELSE s
@@ -43,10 +44,9 @@ VIf(s, cond, name) == IF cond THEN V(s, name) ELSE s
 DoSend(s, P, h, cc) ==
     IF s.ph = "idle" THEN                                    \* a new command
         LET n == s.pos + 1
-            s1 == VIf(s, ~s.dirty /\ (n > Len(P.clean) \/ (n <= Len(P.clean) /\ h # P.clean[n])),
+            s1 == VIf(s, ~s.dirty /\ ~s.amb /\ (n > Len(P.clean) \/ (n <= Len(P.clean) /\ h # P.clean[n])),
                       IF h = s.cur THEN "resend-after-answer" ELSE "off-sequence")
-            s2 == VIf(s1, s.justGave /\ h = s.cur, "over-budget")
-        IN [s2 EXCEPT !.pos = n, !.att = 1, !.cur = h, !.cc = cc, !.ph = "sent", !.ex = 0, !.fAfter = 0, !.justGave = FALSE]
+        IN [s1 EXCEPT !.pos = n, !.att = 1, !.cur = h, !.cc = cc, !.ph = "sent", !.ex = 0, !.fAfter = 0, !.justGave = FALSE]
     ELSE IF s.ph = "faulted" THEN                            \* must be the retry of the same command
         LET ok == IF P.proto = "T4" /\ s.cc = "I" THEN cc = "R" ELSE h = s.cur
             s1 == VIf(s, ~ok, "no-retry") IN
@@ -68,13 +68,14 @@ DoFault(s, P, kind, ex) ==
     IF s.ph # "sent" THEN V(s, "fault-without-send")
     ELSE LET s1 == [s EXCEPT !.ex = s.ex + (IF ex THEN 1 ELSE 0), !.fAfter = s.fAfter + (IF ex THEN 1 ELSE 0)] IN
          IF P.proto = "T2" /\ s.cc = "ssel2" /\ kind = "timeout"
-         THEN [s1 EXCEPT !.ph = "idle"]                      \* passive ack
+         THEN [s1 EXCEPT !.ph = "idle", !.amb = s.amb \/ ~ex]  \* passive ack; if the packet was lost the reader cannot know
          ELSE IF CanRetry(s, P, kind) THEN [s1 EXCEPT !.ph = "faulted"]
          ELSE [s1 EXCEPT !.ph = "idle", !.gave = s.gave + 1, !.lastGive = kind, !.justGave = TRUE, !.dirty = TRUE]
 
 \* r = [kind |-> "ok" | "tagerr" | "raw" | "other", errno, val]
 RetAllowed(s, P, r) ==
-    IF s.gave = 0 THEN r = P.cleanRet                                         \* transient errors are survived
+    IF s.amb THEN r.kind \in {"ok", "tagerr"}                                 \* lost SECTOR SELECT packet 2: outcome not judged
+    ELSE IF s.gave = 0 THEN r = P.cleanRet                                    \* transient errors are survived
     ELSE \/ r.kind = "tagerr" /\ r.errno = ErrnoOf(s.lastGive)                \* TagCommandError with the matching code
          \/ r.kind = "ok" /\ (r.val \in P.doc \/ "any" \in P.doc)             \* the documented None / False
 DoRet(s, P, r) ==
@@ -86,8 +87,7 @@ DoRet(s, P, r) ==
 
 \* ---- the C16 invariants (on the violation set and the counters) ---------------------------------------
 \* ISO-DEP: the counter i also counts the retransmission after an R(ACK) (tt4.py:98-101), checked only at a fault
-BoundedP(s, P) == /\ s.att <= Budget(P.proto, s.cc, P.nRetry) * (IF P.proto = "T4" THEN 2 ELSE 1)
-                  /\ "over-budget" \notin s.viol
+BoundedP(s, P) == s.att <= Budget(P.proto, s.cc, P.nRetry) * (IF P.proto = "T4" THEN 2 ELSE 1)
 NoResendAfterAnswerP(s) == s.viol \cap {"resend-after-answer", "off-sequence", "send-while-sent"} = {}
 RetriesP(s) == s.viol \cap {"no-retry", "return-without-retry", "result-differs-after-transient-error"} = {}
 OnlyTagErrorP(s) == s.viol \cap {"not-a-tag-error", "wrong-result-after-giving-up"} = {}
